@@ -95,6 +95,12 @@ def run(case, ctx):
             pred = gen.make_matched(pred, refa, r)
         elif its[0] == "SEMANTIC":
             pred, refa = gen.to_semantic(pred, r, 2), gen.to_semantic(refa, r, 2)
+            if i % 4 == 1:
+                # class labels that only one side uses, beyond 255 / 65535 (dtype chosen from both maps)
+                big = int(r.choice([256, 300, 65536, 70000]))
+                pred, refa = pred.astype(np.int32), refa.astype(np.int32)
+                (pred if i % 8 == 1 else refa)[(pred if i % 8 == 1 else refa) == 2] = big
+                ctx.count("f:C11.one_sided_large_semantic_label")
     ndim = refa.ndim
     for it in its:
         backend = [None, "cc3d", "scipy"][i % 3]
